@@ -612,6 +612,52 @@ def eval_term(t, env):
     raise CannotEval(show(t))
 
 
+_WIDTH = {'u8': 8, 'u16': 16, 'u32': 32, 'u64': 64, 'usize': 64, 'u128': 128, 'i8': 8, 'i16': 16, 'i32': 32, 'i64': 64, 'isize': 64, 'i128': 128}
+
+
+def _wrap(v, ty):
+    w = _WIDTH.get(ty)
+    if w is None:
+        raise CannotEval('type ' + str(ty))
+    v &= (1 << w) - 1
+    if ty.startswith('i') and v >> (w - 1):
+        v -= 1 << w
+    return v
+
+
+def propagate_constants(t, env):
+    """constant propagation through a call-free arithmetic term with the machine's wrapping semantics: env maps terms (parameters) to
+    (value, type); -> (value, type).  Raises CannotEval on anything it does not model (calls, loops-carried values, floats) and on
+    operations that would trap (shift amount >= width, division by zero)."""
+    if t in env:
+        return env[t]
+    k = t[0]
+    if k == 'const' and isinstance(t[1], int) and not isinstance(t[1], bool) and len(t) > 2:
+        return t[1], t[2]
+    if k == 'cast':
+        v, _ = propagate_constants(t[1], env)
+        return _wrap(v, t[3]), t[3]
+    if k == 'bin':
+        a, ta = propagate_constants(t[2], env)
+        b, tb = propagate_constants(t[3], env)
+        op = t[1].replace('WithOverflow', '')
+        if op in ('Shl', 'Shr'):
+            if not 0 <= b < _WIDTH.get(ta, 0):
+                raise CannotEval('shift amount')
+            return _wrap(a << b if op == 'Shl' else a >> b, ta), ta
+        if op in ('Div', 'Rem'):
+            if b == 0:
+                raise CannotEval('division by zero')
+            qv = abs(a) // abs(b) * (1 if (a < 0) == (b < 0) else -1)
+            return _wrap(qv if op == 'Div' else a - qv * b, ta), ta
+        fn = {'Add': lambda: a + b, 'Sub': lambda: a - b, 'Mul': lambda: a * b, 'BitAnd': lambda: a & b, 'BitOr': lambda: a | b,
+              'BitXor': lambda: a ^ b}.get(op)
+        if fn is None:
+            raise CannotEval(op)
+        return _wrap(fn(), ta), ta
+    raise CannotEval(show(t))
+
+
 def const_fold(t):
     """the integer a closed arithmetic term evaluates to (`6 - 1`, `1 << 20`), or None"""
     try:
